@@ -350,8 +350,31 @@ pub fn c15_check(ck: &mut Checker, sim: &mut Sim, session: usize, req: &packed::
                 let delta = (last_n_cfg as f64) / (gap as f64);
                 let dens = 1.0 / (delta * (1.0 / delta).ln() * (1.0 - delta));
                 // the sampling ratio is quantised to 10^9 steps (RATIO_SCALE_FACTOR)
-                let range = u256_f64(&boundary).max(1.0).min(1e9);
-                let p = (expected as f64) * (expected as f64) / 2.0 * dens / range * 16.0;
+                // (the draws land on integer difficulties between the start block's total
+                // difficulty and the boundary: a chain of low difficulty leaves few slots)
+                let start_td_known = sim
+                    .world
+                    .by_hash
+                    .get(&start_hash)
+                    .map(|id| {
+                        let b = &sim.world.blocks[*id];
+                        if b.number() == 0 {
+                            U256::zero()
+                        } else {
+                            b.td.clone()
+                        }
+                    })
+                    .unwrap_or_else(U256::zero);
+                let width = if boundary > start_td_known { &boundary - &start_td_known } else { U256::one() };
+                let range = u256_f64(&width).max(1.0).min(1e9);
+                // expected number of colliding pairs (with a safety factor of 16); the chance of
+                // losing d samples to collisions is bounded by the Poisson tail lam^d / d!
+                let lam = (expected as f64) * (expected as f64) / 2.0 * dens / range * 16.0;
+                let d = expected - n;
+                let mut p = 1.0f64;
+                for i in 1..=d.min(64) {
+                    p = p * lam / (i as f64);
+                }
                 if p < 1e-9 {
                     bad.push((
                         if (gap as f64) / (last_n_cfg as f64) > 1e7 {
